@@ -58,6 +58,11 @@ CLAIMED.update({
             "note": "PARTIAL: verify_server_cert (certificate must be the SPKI of the dialed id) and the TLS name encode/decode round trip do not finish under CBMC (str::split two-way searcher, format!); the TLS handshake, remote_id_from_noq_conn and connect_with_opts need live connections. A mutation of verify_server_cert or name::decode is NOT detected."},
 })
 
+CLAIMED.update({
+    "C31": {"text": "Kernel only: parsing a `key=value` TXT string keeps exactly the value after the first '=' - for every 4-byte printable value, including values that contain '=' - and rejects strings without '=' or with an unknown key.",
+            "note": "PARTIAL: the encode side (to_txt_strings, Display/format!), address and relay-URL formatting/parsing, the signed-packet and DNS containers and multi-record infos are out of CBMC's reach; a mutation there is NOT detected."},
+})
+
 NA_WALL12 = "needs live tokio tasks/timers/channels (thread-locals with destructors make kani-compiler 0.68 ICE; Kani does not model concurrency): no decisive kernel can be symbolically executed"
 PENDING = "harness not built yet in this revision (planned, DESIGN.md section 4); not claimed until its check exists and passes"
 NOT_APPLICABLE = {
@@ -86,7 +91,7 @@ NOT_APPLICABLE["C24"] = "BiasedRttPathSelector::select needs a PathSelectionCont
 NOT_APPLICABLE["C17"] = "RelayTransport::poll_recv was driven on a partially initialised transport (pending item + real mpsc receiver, Receiver::poll_recv stubbed to avoid tokio's thread-local): it compiles, but symbolic execution did not finish within 600 s (the io::Error construction/drop paths of the closed-channel branch cannot be cut: io::Error::new is not resolvable for stubbing on this toolchain); harness kept in kani/attic/. The wedge suspected by reading (segment_size > buffer => zero-length datagrams reported forever; oversize datagram => Pending without polling the channel) is recorded in DESIGN section 5 as an observation only"
 NOT_APPLICABLE["C29"] = "AddressLookupStream merges its services with futures-buffered's MergeBounded/FuturesUnorderedBounded: any harness that reaches its poll_next makes kani-compiler 0.68 panic (intrinsics.rs:243, thread-local with destructor); the stream's own 30-line state machine cannot be driven without it (harness kept in kani/attic/)"
 NOT_APPLICABLE["C30"] = "needs interleavings of add_boxed and publish at lock boundaries: Kani has no threads; the planned nested-call schedule encoding needs pause hooks placed between two critical sections of the real code, which a correct (lock-holding) implementation does not have - the check could then no longer detect the regression it is meant for; the lost update found by reading (add reads last_data, a publish runs, the service is pushed with stale data) is an observation in DESIGN section 5"
-NOT_APPLICABLE["C31"] = "the subject is string formatting/parsing of TXT attributes (format!, Display, FromStr, split): formatting machinery does not finish under CBMC (a single format! of a u64 timed out at 15 min) and the attribute table is a BTreeMap of Strings"
+_UNUSED_C31 = "the subject is string formatting/parsing of TXT attributes (format!, Display, FromStr, split): formatting machinery does not finish under CBMC (a single format! of a u64 timed out at 15 min) and the attribute table is a BTreeMap of Strings"
 for _p in []:
     NOT_APPLICABLE.setdefault(_p, PENDING)
 
